@@ -731,6 +731,14 @@ func c13Scenario(cs *Case, base *Pop, f c13Fault, second *c13Fault, auto bool, n
 				return
 			}
 		}
+		if ac != nil && nameHash(name)%5 < 2 {
+			// the cache is switched to manual refresh while the fault is still there: from
+			// here on it is a manual cache (what the watcher recorded belongs to the past)
+			cache.Configure(cdi.WithAutoRefresh(false))
+			ac, auto = nil, false
+			tags["switched"] = "auto-to-manual-before-repair"
+			c.Count("auto_caches_switched_to_manual_before_repair", 1)
+		}
 		q := repair()
 		if ac != nil && !ac.Quiesce() {
 			c.Inconclusive("quiesce-timeout")
@@ -757,6 +765,21 @@ func c13Scenario(cs *Case, base *Pop, f c13Fault, second *c13Fault, auto bool, n
 			}
 			if !qres.Conflicts[k] && !(auto && isDirKey) {
 				(&Case{Ctx: c, Name: name}).Violation("stale-error", tags, fmt.Sprintf("after the repair and a refresh GetErrors() still has an entry for %s", k), wit(rep, "repair"))
+				return
+			}
+		}
+		if ac != nil && len(qres.Conflicts) == 0 {
+			// the same cache switched to manual refresh: whatever the watcher had recorded
+			// about directories belongs to the past, an explicit refresh now reports the
+			// (fault-free) present
+			cache.Configure(cdi.WithAutoRefresh(false))
+			rep = makeReport(cache, true)
+			c.Count("auto_caches_switched_to_manual_after_repair", 1)
+			if !report("after repair, switched to manual refresh", rep, qres, nil, false, true) {
+				return
+			}
+			if len(rep.ErrKeys) > 0 {
+				(&Case{Ctx: c, Name: name}).Violation("stale-error", tags, fmt.Sprintf("after the repair, a switch to manual refresh and a refresh GetErrors() still has entries for %v", rep.ErrKeys), wit(rep, "repair+manual"))
 				return
 			}
 		}
